@@ -277,5 +277,31 @@ func runAllocCase(c Case) (fails []fail, o allocObs) {
 	} else if mono && !strings.ContainsAny(s, "WD") && lead != E {
 		add("threshold-mismatch", feat, fmt.Sprintf("threshold T=%d but the unlimited run decrements the counter E(P)=%d times (outcomes N=0..: %s)", lead, E, s))
 	}
+	// the budget is per run: the same VM run again (VM.Run resets its state) must reach the same outcome
+	// with the threshold budget T and with T+1, run after run
+	if ref.Class == "ok" && mono && good >= 2 && !strings.ContainsAny(s, "WD") {
+		if sc, err := tengo.NewScript([]byte(src)).Compile(); err == nil {
+			for _, n := range []int64{lead, lead + 1} {
+				globals := make([]tengo.Object, tengo.GlobalsSize)
+				vm := tengo.NewVM(sc.VerifBytecode(), globals, n)
+				for k := 1; k <= 3; k++ {
+					var rerr error
+					func() {
+						defer func() {
+							if r := recover(); r != nil {
+								rerr = fmt.Errorf("panic: %v", r)
+							}
+						}()
+						rerr = vm.Run()
+					}()
+					o.runs++
+					if rerr != nil {
+						add("non-monotone", feat, fmt.Sprintf("budget N=%d suffices for one run (threshold %d), but run #%d of the same VM fails: %s", n, lead, k, tg.FirstLine(rerr.Error())))
+						break
+					}
+				}
+			}
+		}
+	}
 	return
 }
